@@ -424,3 +424,17 @@ def _nat_userfunc(self, name, out_shapes_cb, annotations=None):
 
 SymWorld.userfunc = _sym_userfunc
 NativeWorld.userfunc = _nat_userfunc
+
+
+def raised_in_harness(e):
+    """True iff the exception was raised by a line of /verif itself (harness, worlds, models) rather than by the code under
+    proof or a library it calls: such an exception is a defect of the replay, never a confirmation of a violation"""
+    tb = e.__traceback__
+    last = None
+    while tb is not None:
+        last = tb
+        tb = tb.tb_next
+    if last is None:
+        return True
+    fn = last.tb_frame.f_code.co_filename
+    return "/harness/" in fn or "/vp/" in fn or "/contracts/" in fn
